@@ -28,6 +28,64 @@ SCOPES = ['', 's1', 's2', 's1/s2']
 NAMES = ['sa', 'sb']
 
 
+# ---- what a singleton's constructor returns.  The property does not depend on what the constructed object looks like:
+# a shared, initially EMPTY container (falsy until something is put into it), None / 0 / '' (falsy and interned), objects
+# whose truth value, length or equality is unusual or raises (array-like) are all objects "constructed at most once".
+class _LenZero:
+  def __len__(self):
+    return 0
+
+
+class _BoolFalse:
+  def __bool__(self):
+    return False
+
+
+class _BoolRaises:
+  def __bool__(self):
+    raise ValueError('the truth value of this object is ambiguous')
+
+
+class _EqAll:
+  def __eq__(self, other):
+    return True
+
+  def __hash__(self):
+    return 0
+
+
+class _EqRaises:
+  def __eq__(self, other):
+    raise ValueError('this object cannot be compared')
+
+  __hash__ = object.__hash__
+
+
+class _Plain:
+  pass
+
+
+def _deque(*a):
+  import collections  # pylint: disable=g-import-not-at-top
+  return collections.deque(*a)
+
+
+KINDS = {
+    # fresh object per construction (identity tells constructions apart)
+    'obj': _Plain, 'deque': _deque, 'dict': dict, 'list': list, 'set': set, 'bytearray': bytearray,
+    'lenzero': _LenZero, 'boolfalse': _BoolFalse, 'boolraises': _BoolRaises, 'eqall': _EqAll, 'eqraises': _EqRaises,
+    'list1': lambda: [1], 'deque1': lambda: _deque([1]), 'dict1': lambda: {'k': 1},
+    # interned / immutable values (only the number of constructions tells)
+    'none': lambda: None, 'zero': lambda: 0, 'false': lambda: False, 'emptystr': lambda: '', 'emptytuple': lambda: (),
+    'one': lambda: 1,
+}
+FALSY = ['deque', 'dict', 'list', 'set', 'bytearray', 'lenzero', 'boolfalse', 'none', 'zero', 'false', 'emptystr', 'emptytuple']
+ODD = ['boolraises', 'eqall', 'eqraises']
+TRUTHY = ['obj', 'list1', 'deque1', 'dict1', 'one']
+FILL = {'deque': lambda o: o.append(7), 'list': lambda o: o.append(7), 'set': lambda o: o.add(7), 'dict': lambda o: o.update(k=7),
+        'bytearray': lambda o: o.append(7), 'list1': lambda o: o.append(7), 'deque1': lambda o: o.append(7), 'dict1': lambda o: o.update(k=7)}
+
+
 class ThreadEngine(Engine):
   name = 'threads-sched'
   imports = 'Model.Values Model.Threads Model.ThreadsEngine'
@@ -39,6 +97,11 @@ class ThreadEngine(Engine):
   def corpus(self):
     return [
         {'progs': [[['singleton', 'sa']], [['singleton', 'sa']]], 'schedule': [0, 1] * 12},
+        # the constructed object is falsy / has no usable truth value: still one construction, one object
+        {'progs': [[['singleton', 'sa', 'deque'], ['singleton', 'sb', 'none']], [['singleton', 'sa', 'deque'], ['singleton', 'sb', 'none']]],
+         'schedule': [0, 1] * 20},
+        {'progs': [[['singleton', 'sa', 'boolraises'], ['singleton', 'sa', 'boolraises']], [['singleton', 'sb', 'lenzero'], ['singleton', 'sb', 'lenzero']]],
+         'schedule': [0, 0, 1] * 20},
         {'progs': [[['call', 0, 's1'], ['read']], [['call', 1, ''], ['call', 0, 's1'], ['read']]], 'schedule': [0, 1, 1, 0] * 8},
     ] + [
         # a whole writer (new section) run at every single point of a reader's critical section, and vice versa
@@ -61,6 +124,7 @@ class ThreadEngine(Engine):
       ([['call', 1, '', 'q']], [['call', 1, '', 'p'], ['call', 0, 's2', '']], [['read']]),
       ([], [['singleton', 'sa']], [['singleton', 'sa']]),                     # first use by both
       ([['singleton', 'sb']], [['singleton', 'sa']], [['singleton', 'sa'], ['read']]),
+      ([], [['singleton', 'sa', 'dict']], [['singleton', 'sa', 'dict'], ['singleton', 'sa', 'dict']]),   # an empty container
   ]
 
   def steps_alone(self, pre, prog):
@@ -78,6 +142,8 @@ class ThreadEngine(Engine):
           out.append({'pre': pre, 'progs': [p0, p1], 'schedule': [0] * a + [1] * b + [0] * (a_max + 5) + [1] * (b_max + 5)})
     return out
 
+  kinds = {name: None for name in NAMES}
+
   def gen_prog(self, rng):
     acts = []
     for _ in range(rng.randint(1, 4)):
@@ -87,11 +153,14 @@ class ThreadEngine(Engine):
       elif r < 0.7:
         acts.append(['read'])
       else:
-        acts.append(['singleton', rng.choice(NAMES)])
+        # the kind of object the constructor returns is a function of the name (one constructor per singleton)
+        name = rng.choice(NAMES)
+        acts.append(['singleton', name] + ([self.kinds[name]] if self.kinds[name] else []))
     return acts
 
   def gen(self, rng, tier):
     n = rng.randint(2, 4)
+    self.kinds = {name: (None if rng.random() < 0.4 else rng.choice(FALSY + ODD + TRUTHY)) for name in NAMES}
     progs = [self.gen_prog(rng) for _ in range(n)]
     schedule = [rng.randrange(n) for _ in range(rng.randint(5, 60))]
     return {'progs': progs, 'schedule': schedule}
@@ -161,11 +230,19 @@ class ThreadEngine(Engine):
     built = []
     reads = []
     got = {}
+    keep = []      # every constructed object stays alive: an id is never reused
 
     class Obj:
       def __init__(self, name):
         self.name = name
         built.append(name)
+
+    def construct(name, kind):
+      if kind is None:
+        return Obj(name)
+      built.append(name)
+      keep.append(KINDS[kind]())
+      return keep[-1]
 
     def make(prog, t):
       def body():
@@ -177,7 +254,8 @@ class ThreadEngine(Engine):
           elif a[0] == 'read':
             reads.append(gin.operative_config_str())
           else:
-            o = gin.config.singleton_value(a[1], lambda n=a[1]: Obj(n))
+            o = gin.config.singleton_value(a[1], lambda n=a[1], k=(a[2] if len(a) > 2 else None): construct(n, k))
+            keep.append(o)
             got.setdefault(a[1], []).append(id(o))
       return body
     bodies = [make(p, t) for t, p in enumerate(progs)]
@@ -387,4 +465,236 @@ class ScopedClassReadEngine(Engine):
     return {'obs': T('Done'), 'fails': fails[:3], 'nontrivial': switches >= 2, 'tags': [form, other]}
 
 
-ENGINES = [ThreadEngine(), ScopedClassReadEngine()]
+class SingletonHistoryEngine(Engine):
+  """sequential histories (with bursts of free-running threads) of singleton USES THROUGH THE CONFIGURATION
+  (`user.x = @buf/singleton()`, `buf/singleton.constructor = @mk0`), direct uses (`singleton_value(name[, constructor])`),
+  mutations of the delivered object and clear_config, for every kind of constructed object in KINDS.  Written from the
+  property text with the harness's own bookkeeping (each constructor records the objects it returned): within one
+  lifetime of the configuration the constructor of a scope name runs exactly once, at the first use; every use, from any
+  thread and any calling scope, is handed the object that construction returned; after clear_config the object is
+  forgotten: a look-up without a constructor does not deliver it and the next use constructs a new one.  Implementation
+  only (the sequential half, C18_singleton_seq / C18_clear_forgets, is a theorem about keys; objects have no shape in the
+  model)."""
+  name = 'singleton-histories'
+  model = False
+  rule = ('singletons: histories of uses through references @scope/singleton() from several configurables and calling '
+          'scopes, direct singleton_value look-ups with and without a constructor, bursts of 2-4 threads using them at once, '
+          'filling / emptying the delivered container and clear_config + re-parse, for constructors that return empty '
+          'containers, None / 0 / empty strings, objects with a false, zero-length or raising truth value or an '
+          'unusual __eq__, and ordinary objects; one construction per scope name and lifetime, every use gets that object, '
+          'clear_config forgets it')
+
+  SNAMES = ['buf', 'reg', 'plugins/reg']
+  USERS = [0, 0, 1, 2]               # user i is bound to the singleton of scope SNAMES[USERS[i]]
+
+  def budget(self, tier):
+    return 120 if tier == 'quick' else 1500
+
+  def config(self, shared):
+    lines = ['u%d.x = @%s/singleton()' % (i, self.SNAMES[s]) for i, s in enumerate(self.USERS)]
+    for s, nm in enumerate(self.SNAMES):
+      lines.append('%s/singleton.constructor = @mk%d' % (nm, 0 if (shared and s == 1) else s))
+    return '\n'.join(lines) + '\n'
+
+  def corpus(self):
+    hist = [['use', 0], ['use', 1], ['value', 0, True], ['value', 0, False], ['par', [0, 1, 0]], ['use', 3], ['use', 3],
+            ['fill', 0], ['use', 1], ['drain', 0], ['use', 0], ['use-scoped', 1], ['value', 2, False],
+            ['clear'], ['value', 0, False], ['use', 1], ['use', 0], ['use', 2], ['use', 2]]
+    return [
+        {'kinds': ['deque', 'dict', 'list'], 'shared': False, 'hist': hist},
+        {'kinds': ['none', 'zero', 'emptystr'], 'shared': False, 'hist': hist},
+        {'kinds': ['boolraises', 'lenzero', 'eqall'], 'shared': False, 'hist': hist},
+        {'kinds': ['set', 'set', 'eqraises'], 'shared': True, 'hist': hist},
+        {'kinds': ['obj', 'list1', 'one'], 'shared': False, 'hist': hist},
+        {'kinds': ['deque1', 'boolfalse', 'false'], 'shared': False,
+         'hist': [['use', 0], ['drain', 0], ['use', 1], ['par', [1, 0, 2, 2]], ['use', 2], ['clear'], ['par', [0, 1]], ['use', 0]]},
+    ]
+
+  def gen(self, rng, tier):
+    pool = FALSY * 2 + ODD + TRUTHY
+    kinds = [rng.choice(pool) for _ in self.SNAMES]
+    hist = []
+    for _ in range(rng.randint(3, 12)):
+      r = rng.random()
+      if r < 0.4:
+        hist.append([rng.choice(['use', 'use', 'use-scoped']), rng.randrange(len(self.USERS))])
+      elif r < 0.55:
+        hist.append(['value', rng.randrange(len(self.SNAMES)), rng.random() < 0.6])
+      elif r < 0.7:
+        hist.append(['par', [rng.randrange(len(self.USERS)) for _ in range(rng.randint(2, 4))]])
+      elif r < 0.85:
+        hist.append([rng.choice(['fill', 'drain']), rng.randrange(len(self.SNAMES))])
+      else:
+        hist.append(['clear'])
+    return {'kinds': kinds, 'shared': rng.random() < 0.25, 'hist': hist}
+
+  def shrink(self, case):
+    for i in range(len(case['hist'])):
+      yield dict(case, hist=case['hist'][:i] + case['hist'][i + 1:])
+    for i, a in enumerate(case['hist']):
+      if a[0] == 'par' and len(a[1]) > 2:
+        yield dict(case, hist=case['hist'][:i] + [['par', a[1][:-1]]] + case['hist'][i + 1:])
+      if a[0] == 'par':
+        yield dict(case, hist=case['hist'][:i] + [['use', u] for u in a[1]] + case['hist'][i + 1:])
+    if case['shared']:
+      yield dict(case, shared=False)
+
+  def impl(self, case):
+    import threading  # pylint: disable=g-import-not-at-top
+    gin = C.fresh_gin()
+    kinds = list(case['kinds'])
+    shared = bool(case['shared'])
+    if shared:
+      kinds[1] = kinds[0]
+    ctor_of = [0 if (shared and s == 1) else s for s in range(len(self.SNAMES))]
+    made = {c: [] for c in range(len(self.SNAMES))}     # constructor -> objects it returned, in order (kept alive)
+    mlock = threading.Lock()
+    ctors, users = [], []
+    for c in range(len(self.SNAMES)):
+      def mk(c=c):
+        o = KINDS[kinds[c]]()
+        with mlock:
+          made[c].append(o)
+        return o
+      mk.__name__ = mk.__qualname__ = 'mk%d' % c
+      mk.__module__ = None
+      ctors.append(gin.configurable('mk%d' % c)(mk))
+    for i in range(len(self.USERS)):
+      def u(x='unset'):
+        return x
+      u.__name__ = u.__qualname__ = 'u%d' % i
+      u.__module__ = None
+      users.append(gin.configurable('u%d' % i)(u))
+    text = self.config(shared)
+    gin.parse_config(text)
+
+    fails = []
+    current = {}       # scope index -> the object its construction returned in THIS lifetime of the configuration
+    life = 0
+    deliveries = repeated = after_clear = 0
+    log = []
+
+    def fail(kind, msg):
+      fails.append((kind, 'after %r (lifetime %d, objects %r, config %r): %s' % (log, life, kinds, text, msg)))
+
+    def deliver(s, thunks, what):
+      """run the uses `thunks` of the singleton of scope s (several: each in its own thread, released together)"""
+      nonlocal deliveries, repeated, after_clear
+      c = ctor_of[s]
+      before = len(made[c])
+      res = [None] * len(thunks)
+      errs = [None] * len(thunks)
+      if len(thunks) == 1:
+        try:
+          res[0] = thunks[0]()
+        except Exception as e:  # pylint: disable=broad-except
+          errs[0] = e
+      else:
+        bar = threading.Barrier(len(thunks))
+
+        def run(i):
+          try:
+            bar.wait(timeout=10)
+            res[i] = thunks[i]()
+          except Exception as e:  # pylint: disable=broad-except
+            errs[i] = e
+        ths = [threading.Thread(target=run, args=(i,)) for i in range(len(thunks))]
+        for t in ths:
+          t.start()
+        for t in ths:
+          t.join(20)
+      constructed = len(made[c]) - before
+      bad = [e for e in errs if e is not None]
+      if bad:
+        fail('singleton-use-failed', '%s raised %s: %s' % (what, type(bad[0]).__name__, str(bad[0])[:160]))
+        if constructed and s not in current:
+          current[s] = made[c][before]
+        return
+      first = s not in current
+      if first:
+        if constructed == 0:
+          fail('first-use-did-not-construct', '%s: the first use of %r in this lifetime ran no constructor and delivered %s'
+               % (what, self.SNAMES[s], [type(o).__name__ for o in res]))
+          return
+        current[s] = made[c][before]
+        if life:
+          after_clear += 1
+      if constructed != (1 if first else 0):
+        fail('singleton-constructed-twice', '%s: the constructor of %r ran %d more time(s); it %s'
+             % (what, self.SNAMES[s], constructed, 'had not run in this lifetime' if first else 'had already run in this lifetime'))
+      if any(o is not current[s] for o in res):
+        fail('singleton-users-got-different-objects', '%s: %r was constructed as object %#x, the use(s) received %s'
+             % (what, self.SNAMES[s], id(current[s]), [hex(id(o)) for o in res]))
+      deliveries += len(res)
+      if not first or len(res) > 1:
+        repeated += 1
+
+    def use_of(u, scoped):
+      def thunk():
+        if scoped:
+          with gin.config_scope('s1'):
+            return users[u]()
+        return users[u]()
+      return thunk
+
+    for a in case['hist']:
+      if len(fails) >= 3:
+        break
+      if a[0] in ('use', 'use-scoped'):
+        log.append(a)
+        deliver(self.USERS[a[1]], [use_of(a[1], a[0] == 'use-scoped')], 'u%d()%s' % (a[1], ' inside scope s1' if a[0] == 'use-scoped' else ''))
+      elif a[0] == 'par':
+        log.append(a)
+        by_scope = {}
+        for u in a[1]:
+          by_scope.setdefault(self.USERS[u], []).append(u)
+        if len(by_scope) == 1:
+          (s, us), = by_scope.items()
+          deliver(s, [use_of(u, False) for u in us], 'threads calling %s at once' % ', '.join('u%d()' % u for u in us))
+        else:
+          # users of different singletons: the bursts follow each other (the bookkeeping is per constructor)
+          for s, us in sorted(by_scope.items()):
+            deliver(s, [use_of(u, False) for u in us], 'threads calling %s at once' % ', '.join('u%d()' % u for u in us))
+      elif a[0] == 'value':
+        s, with_ctor = a[1], a[2]
+        log.append(a)
+        if with_ctor:
+          deliver(s, [lambda s=s: gin.config.singleton_value(self.SNAMES[s], ctors[ctor_of[s]])], 'singleton_value(%r, mk%d)' % (self.SNAMES[s], ctor_of[s]))
+        elif s in current:
+          deliver(s, [lambda s=s: gin.config.singleton_value(self.SNAMES[s])], 'singleton_value(%r)' % self.SNAMES[s])
+        else:
+          before = len(made[ctor_of[s]])
+          try:
+            o = gin.config.singleton_value(self.SNAMES[s])
+            fail('unbuilt-singleton-delivered', 'singleton_value(%r) without a constructor delivered a %s although nothing was '
+                 'constructed for that name in this lifetime' % (self.SNAMES[s], type(o).__name__))
+          except ValueError:
+            pass
+          except Exception as e:  # pylint: disable=broad-except
+            fail('singleton-use-failed', 'singleton_value(%r) raised %s: %s' % (self.SNAMES[s], type(e).__name__, str(e)[:160]))
+          if len(made[ctor_of[s]]) != before:
+            fail('singleton-constructed-twice', 'a look-up without a constructor constructed something')
+      elif a[0] in ('fill', 'drain'):
+        s = a[1]
+        if s in current and kinds[s] in FILL:
+          log.append(a)
+          if a[0] == 'fill':
+            FILL[kinds[s]](current[s])
+          else:
+            current[s].clear()
+      elif a[0] == 'clear':
+        log.append(a)
+        try:
+          gin.clear_config()
+          gin.parse_config(text)
+        except Exception as e:  # pylint: disable=broad-except
+          fail('clear-failed', '%s: %s' % (type(e).__name__, str(e)[:160]))
+          break
+        current = {}
+        life += 1
+    tags = sorted({'obj:' + kinds[s] for s in range(len(kinds))}) + (['cleared'] if life else []) + (['shared-ctor'] if shared else [])
+    obs = T('Done')
+    return {'obs': obs, 'fails': fails[:3], 'nontrivial': repeated >= 1 or after_clear >= 1, 'tags': tags}
+
+
+ENGINES = [ThreadEngine(), ScopedClassReadEngine(), SingletonHistoryEngine()]
